@@ -56,11 +56,13 @@ def request(P, rule, kind, s, i):
 def qline(kind, s, i):
     c = lib.cps(s)
     sp = (" " + c) if c else ""
+    # the model starts every request from empty caches (memoisation within the request only - by theorem
+    # C08.request_transparent this equals the cache-free engine, which is exponentially slower on recursive grammars)
     if kind == "lparse":
-        return f"lparse0 0 {i}{sp}"
+        return f"lparse1 0 {i}{sp}"
     if kind == "parse":
-        return f"parse0 0 {i}{sp}"
-    return f"parseall 0{sp}"
+        return f"parse1 0 {i}{sp}"
+    return f"parseall1 0{sp}"
 
 
 def run(ctx):
